@@ -32,7 +32,8 @@ fn dispatch(op: &str, args: &[Sexp]) -> String {
         "rawgds.export" => crate::props::c0607::op_export(args),
         "gdsraw.import" => crate::props::c0607::op_import(args),
         "gdsraw.flat" => crate::props::c0607::op_flat(args),
-        "place" => crate::props::c09::op_place(args),
+        "place" => crate::props::c09::op_place(args, false),
+        "place.retry" => crate::props::c09::op_place(args, true),
         "place.array" => crate::props::c09::op_array(args),
         "c20.abs2gds" => crate::props::c20::op_abs2gds(args),
         "c20.abs2lef" => crate::props::c20::op_abs2lef(args),
